@@ -23,13 +23,18 @@ from .core import Ctx, MachineryError
 
 RULES = {
     "C08": "one case = (instance, column transformation Q, scale 2^e, aggregator); Q ranges over the words of length <= "
-           "MaxSteps in {column swap, column negation, Hadamard/2 block on 4 columns, appended zero column}; non-trivial = "
+           "MaxSteps in {column swap, column negation, Hadamard/2 block on 4 columns, appended zero column}, optionally closed by PadZero(k, layout): "
+           "k = 2^12..2^14 all-zero columns appended or interleaved (law by induction in the model, materialised by the replay); the family includes "
+           "badly conditioned instances of unambiguous rank (condition number 37..63); non-trivial = "
            "Q is not the identity and the instance has rank >= 2 and a negative Gramian entry (projection-based weights differ from the mean)",
     "C09": "one case = (instance, c1, c2, a, b, scale 2^e, aggregator) with c entries in {1, 2^10, 2^20} (6 orders of magnitude), a, b in 1..3; "
-           "non-trivial = c1 != c2, one of them non-uniform, conflicting rows; UPGrad additionally over reg_eps in 1e-2..1e-12 and norm_eps in {1e-4, 1e-2, 1e-6}, "
+           "non-trivial = c1 != c2, one of them non-uniform, conflicting rows; UPGrad additionally over reg_eps in 1e-2..1e-12 (fresh object per rung, "
+           "walked down and then up within one process) and norm_eps in {1e-4, 1e-2, 1e-6}, "
            "including scales at which the singular values of diag(c) J lie on both sides of norm_eps (largest above, a non-zero one below; decided exactly)",
     "C10": "one case = (instance, row permutation, parameter vectors permuted with the rows, scale 2^e, aggregator); ALL m! permutations of "
-           "every instance (m <= 4 quick, m <= 5 thorough); non-trivial = non-identity permutation of an instance with different rows and a non-constant parameter vector",
+           "every instance (m <= 4 quick, m <= 5 thorough), with a fresh object per call AND (aggregators without per-row parameters) with ONE object called "
+           "consecutively on temporaries J[pi], also in the model's wide presentation (columns repeated 4^5 times, scaled 2^-5: 3 x 4096); "
+           "non-trivial = non-identity permutation of an instance with different rows and a non-constant parameter vector",
 }
 ASSUMPTIONS = [
     "float64; matrices are integers (or half-integers) times 2^e, so J J^T, J Q and diag(c) J are exact in floats and Gram(JQ) = Gram(J) bit for bit",
@@ -62,6 +67,18 @@ def _run(ctx: Ctx, replay: str | None, pid: str) -> None:
                 raise MachineryError(f"instance {iid}: {len(perms)} of {math.factorial(m)} row permutations reached")
         ctx.extra["instances"] = len(by)
         ctx.extra["max_rows"] = max(len(next(iter(p))) for p in by.values())
+        for k in ("one_object_calls_on_temporaries", "one_object_calls_on_temporaries_wide"):
+            ctx.extra[k] = ctx.counters.get(k, 0)
+            if not ctx.counters.get(k):
+                raise MachineryError(f"vacuous one-object histories: {k} = 0")
+    if pid == "C08":
+        pads = [s for s in picked if s["pad"]["cnt"] > 0]
+        ctx.extra["padded_scenarios_replayed"] = {"total": len(pads), "max_zero_columns": max((s["pad"]["cnt"] for s in pads), default=0),
+                                                  "interleaved": sum(1 for s in pads if s["pad"]["lay"] == "interleave"),
+                                                  "on_badly_conditioned_instances": sum(1 for s in pads if s["badcond"])}
+        if not pads or not ctx.extra["padded_scenarios_replayed"]["interleaved"] or \
+                not ctx.extra["padded_scenarios_replayed"]["on_badly_conditioned_instances"]:
+            raise MachineryError(f"vacuous zero-column padding: {ctx.extra['padded_scenarios_replayed']}")
     skipped = {k: v for k, v in ctx.counters.items() if k.startswith("skipped:")}
     ctx.extra["skipped_by_exact_classification"] = skipped
     if pid == "C09":
@@ -73,7 +90,12 @@ def _run(ctx: Ctx, replay: str | None, pid: str) -> None:
                  "spec RowBracket), so triples with widely spread c are decided; the ladder also runs at the ladder-only scales "
                  "(aggsym_driver.LADDER_SCALES) where norm_eps lies BETWEEN the rows of diag(c) J: the largest singular value is above "
                  "norm_eps, a non-zero one is certified below (counted in ladder_triples_with_singular_values_on_both_sides_of_norm_eps).")
-        for k in ("ladder_triples_with_singular_values_on_both_sides_of_norm_eps", "ladder_triples_straddling_the_default_norm_eps"):
+        ctx.note("UPGrad ladder histories: per triple one FRESH UPGrad object per rung, walked down the ladder (1e-2 .. 1e-12) and "
+                 "then up again in the same process (orders exported by the model, Scenario.ladder); the calls of a case come "
+                 "before every other call of that case, so the first walk of every worker process starts in a process in which "
+                 "no UPGrad object was used before (counted); the bound is evaluated per rung against that rung's reg_eps for both walks.")
+        for k in ("ladder_triples_with_singular_values_on_both_sides_of_norm_eps", "ladder_triples_straddling_the_default_norm_eps",
+                  "ladder_walks_descending_first_in_a_process_without_earlier_ladder_calls"):
             ctx.extra[k] = ctx.counters.get(k, 0)
             if not ctx.counters.get(k):
                 raise MachineryError(f"vacuous UPGrad ladder: {k} = 0")
